@@ -208,14 +208,67 @@ func opTableVerdict(w *World, fn, geq, eq *ssa.Function, isNormaliser func(*ssa.
 		}
 	}
 	type disp struct {
-		call   *ssa.Call
+		blk    *ssa.BasicBlock // where the normaliser is chosen: the block of its call, or of the selection of it as a value
+		pos    string
 		callee *ssa.Function
 	}
 	var calls []disp
 	allInstrs(fn, func(ins ssa.Instruction) {
 		if c, ok := ins.(*ssa.Call); ok {
 			if t := c.Call.StaticCallee(); t != nil && isNormaliser(w.unwrap(t)) {
-				calls = append(calls, disp{c, w.unwrap(t)})
+				calls = append(calls, disp{c.Block(), w.InstrPos(c), w.unwrap(t)})
+			}
+		}
+	})
+	// the normaliser may be selected as a value and called later (`normalize = Eq` in one arm, a function literal
+	// around GtEq in the other, `normalize(lits, weights, rhs)` below): the selection is the dispatch
+	selected := func(v ssa.Value) *ssa.Function {
+		var lit *ssa.Function
+		switch x := v.(type) {
+		case *ssa.Function:
+			if isNormaliser(w.unwrap(x)) {
+				return w.unwrap(x)
+			}
+			if x.Parent() != nil {
+				lit = x // a function literal that captures nothing
+			}
+		case *ssa.MakeClosure:
+			lit, _ = x.Fn.(*ssa.Function)
+		}
+		if lit == nil {
+			return nil
+		}
+		var only *ssa.Function
+		for _, ci := range callsIn(lit) {
+			if t := ci.Common().StaticCallee(); t != nil && isNormaliser(w.unwrap(t)) {
+				if only != nil && only != w.unwrap(t) {
+					return nil
+				}
+				only = w.unwrap(t)
+			}
+		}
+		return only
+	}
+	calledHere := func(v ssa.Value) bool {
+		for _, ref := range *v.Referrers() {
+			if c, ok := ref.(*ssa.Call); ok && c.Call.Value == v {
+				return true
+			}
+		}
+		return false
+	}
+	allInstrs(fn, func(ins ssa.Instruction) {
+		phi, ok := ins.(*ssa.Phi)
+		if !ok || !calledHere(phi) {
+			return
+		}
+		if _, isSig := phi.Type().Underlying().(*types.Signature); !isSig {
+			return
+		}
+		for i, e := range phi.Edges {
+			if t := selected(e); t != nil {
+				pb := phi.Block().Preds[i]
+				calls = append(calls, disp{pb, w.InstrPos(pb.Instrs[len(pb.Instrs)-1]), t})
 			}
 		}
 	})
@@ -232,7 +285,7 @@ func opTableVerdict(w *World, fn, geq, eq *ssa.Function, isNormaliser func(*ssa.
 		st, uni := tokenStates(fn, v)
 		constrains := false
 		for _, d := range calls {
-			if s := st[d.call.Block()]; s != nil && len(s) < len(uni) {
+			if s := st[d.blk]; s != nil && len(s) < len(uni) {
 				constrains = true
 			}
 		}
@@ -272,7 +325,7 @@ func opTableVerdict(w *World, fn, geq, eq *ssa.Function, isNormaliser func(*ssa.
 			}
 		}
 		for _, d := range calls {
-			for c := range states[d.call.Block()] {
+			for c := range states[d.blk] {
 				accepted[c] = true
 			}
 		}
@@ -289,7 +342,7 @@ func opTableVerdict(w *World, fn, geq, eq *ssa.Function, isNormaliser func(*ssa.
 		found := false
 		var wrong []string
 		for _, d := range calls {
-			st := states[d.call.Block()]
+			st := states[d.blk]
 			if st == nil || len(st) == 0 {
 				continue // unreachable
 			}
@@ -297,7 +350,7 @@ func opTableVerdict(w *World, fn, geq, eq *ssa.Function, isNormaliser func(*ssa.
 				if d.callee == want.fn && sameSet(st, want.op) {
 					found = true
 				} else {
-					wrong = append(wrong, fmt.Sprintf("%s is called at %s when the token is in %s", w.FuncName(d.callee), w.InstrPos(d.call), setString(st)))
+					wrong = append(wrong, fmt.Sprintf("%s is called at %s when the token is in %s", w.FuncName(d.callee), d.pos, setString(st)))
 				}
 			}
 		}
@@ -335,8 +388,33 @@ func ruleR13_2(w *World, r *Report) {
 				calls = true
 			}
 		}
-		if calls {
-			anchors = append(anchors, f)
+		// a normaliser used as a value (`normalize = Eq`) dispatches as well
+		allInstrs(f, func(ins ssa.Instruction) {
+			if _, isCall := ins.(ssa.CallInstruction); isCall {
+				return
+			}
+			for _, op := range ins.Operands(nil) {
+				if op != nil && (*op == ssa.Value(geq) || *op == ssa.Value(eq)) {
+					calls = true
+				}
+			}
+		})
+		if !calls {
+			continue
+		}
+		// a function literal that wraps a normaliser is judged where it is selected: in the enclosing function
+		a := f
+		for a.Parent() != nil {
+			a = a.Parent()
+		}
+		dup := false
+		for _, x := range anchors {
+			if x == a {
+				dup = true
+			}
+		}
+		if !dup {
+			anchors = append(anchors, a)
 		}
 	}
 	if len(anchors) == 0 {
